@@ -70,13 +70,15 @@ def flags(op, depth=0):
     out = OrderedDict()
     out["__class__"] = type(op).__name__
     for k, v in sorted(vars(op).items()):
-        if k in _SKIP_ATTRS or k.endswith("_memo") or k.startswith("_memoize") or k.startswith("_cached") or "cache" in k:
+        if k in _SKIP_ATTRS or k.endswith("_memo") or k.startswith("_memoize") or k.startswith("_cached") or "cache" in k or "device" in k:
             continue
         if _simple(v):
             out[k] = tuple(v) if isinstance(v, (list, torch.Size)) else v
         elif isinstance(v, torch.dtype):
             out[k] = ("dtype", v)
     for k, v in sorted(op._nondifferentiable_kwargs.items()):
+        if "device" in k:
+            continue
         if _simple(v):
             out["kw:" + k] = tuple(v) if isinstance(v, (list, torch.Size)) else v
         elif isinstance(v, torch.dtype):
@@ -313,28 +315,55 @@ def check_returned(rec, cname, label, op, dense, psd, tier):
 
     def one(kind, f, ref=None, scale=sc, allowed=()):
         grp = f"returns_{kind}/{cname}"
-        ok, r = rec.guard(grp, label, f, allowed=allowed)
-        if not ok:
+
+        def run():
+            r = f()
+            outs_ = list(r) if isinstance(r, (tuple, list)) else [r]
+            return [(_dn(o) if o is not None else None) for o in outs_]
+
+        try:
+            outs = run()
+        except allowed:
+            rec.check(grp, label, True, nontrivial=False)
             return
-        outs = r if isinstance(r, (tuple, list)) else [r]
+        except Exception as e:  # noqa
+            # C14 is about the dtype / precision of what is returned.  An entry point that raises is another property's
+            # business unless the failure is caused by the dtype mismatch itself: re-run with torch's default dtype
+            # equal to the operator's dtype; only a failure that disappears there is a C14 failure.
+            cur = torch.get_default_dtype()
+            dtype_related = False
+            if cur != dt and dt.is_floating_point:
+                try:
+                    torch.set_default_dtype(dt)
+                    run()
+                    dtype_related = True
+                except Exception:
+                    dtype_related = False
+                finally:
+                    torch.set_default_dtype(cur)
+            rec.check(grp, label, not dtype_related, f"raises only when torch's default dtype ({cur}) differs from the operator dtype ({dt}): {type(e).__name__}: {str(e)[:200]}",
+                      nontrivial=False)
+            return
         probs = []
         for i, o in enumerate(outs):
-            o = _dn(o) if o is not None else None
             if o is None or not torch.is_tensor(o) or not o.dtype.is_floating_point:
                 continue
             if o.dtype != dt:
                 probs.append(f"output {i} has dtype {o.dtype}, operator dtype {dt}")
         if not probs and ref is not None:
-            refs = ref() if callable(ref) else ref
-            refs = refs if isinstance(refs, (tuple, list)) else [refs]
-            for i, (o, e) in enumerate(zip(outs, refs)):
-                if e is None:
-                    continue
-                o = _dn(o)
-                if tuple(o.shape) != tuple(e.shape):
-                    probs.append(f"output {i} shape {tuple(o.shape)} vs {tuple(e.shape)}")
-                elif not _close(o, e.to(dt), dt, scale=scale):
-                    probs.append(f"output {i} value differs from the dense computation at {dt} precision (max diff {float((o.double() - e.double()).abs().max()):.2e})")
+            try:
+                refs = ref() if callable(ref) else ref
+            except Exception:
+                refs = None
+            if refs is not None:
+                refs = refs if isinstance(refs, (tuple, list)) else [refs]
+                for i, (o, e) in enumerate(zip(outs, refs)):
+                    if e is None or o is None:
+                        continue
+                    if tuple(o.shape) != tuple(e.shape):
+                        continue  # a wrong shape is another property's finding (C01-C03), not a dtype / precision matter
+                    elif not _close(o, e.to(dt), dt, scale=scale):
+                        probs.append(f"output {i} value differs from the dense computation at {dt} precision (max diff {float((o.double() - e.double()).abs().max()):.2e})")
         rec.check(grp, label, not probs, "; ".join(probs)[:400])
 
     D = dense.to(torch.float64)
@@ -356,7 +385,7 @@ def check_returned(rec, cname, label, op, dense, psd, tier):
     one("sums", lambda: (op.sum(-1), op.sum(-2)), lambda: (D.sum(-1), D.sum(-2)))
     one("arith", lambda: ((op * 2.0), (op + dense), (op * torch.tensor(0.5, dtype=dt)), op.add(dense, alpha=2.0) if hasattr(op, "add") else None),
         lambda: (D * 2.0, D + D, D * 0.5, D * 3.0))
-    one("expand_repeat", lambda: (op.expand(2, *op.shape), op.repeat(2, 1, 1), op.unsqueeze(0)), lambda: (D.expand(2, *D.shape), D.expand(2, *D.shape), D.unsqueeze(0)))
+    one("expand_repeat", lambda: (op.expand(2, *op.shape), op.repeat(2, 1, 1)), lambda: (D.expand(2, *D.shape), D.repeat(2, *[1] * (D.dim() - 1)) if batch else D.expand(2, *D.shape)))
     if m != n:
         return
     one("diagonal", lambda: op.diagonal(), lambda: D.diagonal(dim1=-2, dim2=-1))
@@ -388,6 +417,12 @@ def check_returned(rec, cname, label, op, dense, psd, tier):
         # logdet on the CG path is a stochastic estimate: dtype only
         one(f"logdet{tag}", under(lambda: (mk().logdet(),) + tuple(mk().inv_quad_logdet(X, logdet=True))),
             (lambda: (torch.logdet(D), (X.double() * (Dinv @ X.double())).sum((-2, -1)), torch.logdet(D))) if not tag else None, scale=sc * 10)
+        one(f"logdet_only{tag}", under(lambda: tuple(mk().inv_quad_logdet(inv_quad_rhs=None, logdet=True))))
+
+        def skip_fwd():
+            with settings.skip_logdet_forward(True):
+                return tuple(mk().inv_quad_logdet(X, logdet=True))
+        one(f"logdet_skip_forward{tag}", under(skip_fwd))
         one(f"root_decomposition{tag}", under(lambda: (lambda R: R @ R.mT)(mk().root_decomposition().root.to_dense())), (lambda: D) if not tag else None, scale=sc * 10)
         one(f"root_inv_decomposition{tag}", under(lambda: (lambda R: R @ R.mT)(mk().root_inv_decomposition().root.to_dense())), (lambda: Dinv) if not tag else None, scale=sc * 100)
         one(f"zero_mean_mvn_samples{tag}", under(lambda: mk().zero_mean_mvn_samples(2)))
@@ -521,9 +556,9 @@ def _local_cases():
 
     def blockinter_dim(g, dt, b, n):
         blocks = zoo.spd(g, (2, *b), n, dt)
-        op = O.BlockInterleavedLinearOperator(blocks, block_dim=0)
+        op = O.BlockInterleavedLinearOperator(O.DenseLinearOperator(blocks), block_dim=0)
         return op, zoo.block_interleaved_dense(blocks.movedim(0, -3)), True
-    C["blockinterleaved_block_dim0_tensor"] = blockinter_dim
+    C["blockinterleaved_block_dim0"] = blockinter_dim
 
     def sumbatch_dim(g, dt, b, n):
         blocks = zoo.spd(g, (3, *b), n, dt)
@@ -544,7 +579,7 @@ def _local_cases():
 
     def cat3(g, dt, b, n):
         a, c, e = _rn(g, *b, n, 1, dtype=dt), _rn(g, *b, n, n, dtype=dt), _rn(g, *b, n, 2, dtype=dt)
-        return O.CatLinearOperator(a, O.DenseLinearOperator(c), O.DenseLinearOperator(e), dim=len(b) + 1), torch.cat([a, c, e], -1), False
+        return O.CatLinearOperator(O.DenseLinearOperator(a), O.DenseLinearOperator(c), O.DenseLinearOperator(e), dim=len(b) + 1), torch.cat([a, c, e], -1), False
     C["cat3_cols_positive_dim"] = cat3
 
     def interp_default(g, dt, b, n):
@@ -615,9 +650,18 @@ def _local_cases():
     return C
 
 
-LOCAL_NAMES = ["user_kw", "user_kw_nested_psd", "constmul_kwargs", "tri_upper_kw", "chol_upper_kw", "kron_tri_upper", "blockdiag_block_dim0", "blockinterleaved_block_dim0_tensor",
+LOCAL_NAMES = ["user_kw", "user_kw_nested_psd", "constmul_kwargs", "tri_upper_kw", "chol_upper_kw", "kron_tri_upper", "blockdiag_block_dim0", "blockinterleaved_block_dim0",
                "sumbatch_block_dim0", "batchrepeat_kw", "cat_rows_kw", "cat3_cols_positive_dim", "interp_left_only_kw", "addeddiag_interp_toeplitz", "masked_psd", "identity_kw",
                "zero_square", "constdiag_kwargs", "addeddiag_kernel_kw", "kpad_tensor_factors", "perm_local"]
+
+
+def _guarded(rec, cname, lab, f):
+    try:
+        f()
+    except Exception as e:  # noqa  a problem of this harness: keep it visible
+        import traceback
+        tb = traceback.format_exc().strip().splitlines()
+        rec.check(f"harness/{cname}", lab, False, f"{type(e).__name__}: {str(e)[:200]} @ {tb[-3][:150]} | {tb[-2][:150]}")
 
 
 def _defaults(fn):
@@ -645,8 +689,8 @@ def rtc_zoo(case_names, tier):
             if op is None:
                 rec.check(f"construct/{c.name}", lab, False, f"constructor raised {dense!r}")
                 continue
-            check_copies(rec, c.name, lab, op, dense, is_perm=c.name in ("perm", "tperm"))
-            check_returned(rec, c.name, lab, op, dense, c.psd, tier)
+            _guarded(rec, c.name, lab, lambda: check_copies(rec, c.name, lab, op, dense, is_perm=c.name in ("perm", "tperm")))
+            _guarded(rec, c.name, lab, lambda: check_returned(rec, c.name, lab, op, dense, c.psd, tier))
     _defaults(run)
     return rec.obligations()
 
@@ -671,8 +715,8 @@ def rtc_local(names, tier):
                 if not ok:
                     continue
                 op, dense, psd = res
-                check_copies(rec, f"local_{name}", lab, op, dense)
-                check_returned(rec, f"local_{name}", lab, op, dense, psd, tier)
+                _guarded(rec, f"local_{name}", lab, lambda: check_copies(rec, f"local_{name}", lab, op, dense))
+                _guarded(rec, f"local_{name}", lab, lambda: check_returned(rec, f"local_{name}", lab, op, dense, psd, tier))
     _defaults(run)
     return rec.obligations()
 
